@@ -359,6 +359,7 @@ def run_victim_file(sh, s, d, case, only=None):
             except Exception as e:
                 sh.violation('c05:file:foreign-transaction-%s-raises-%s' % (name, type(e).__name__), {'before_step': before_step}, case)
         fs.tpc_abort(t2)          # must be a no-op
+        fs.tpc_abort(transaction=t2)
         sh.count('foreign_transaction_calls_rejected')
     # ---- enumerate
     if only is not None:
@@ -624,7 +625,10 @@ def run_victim_blobwrap(sh, s, d, case):
                            ('store', lambda: st.store(ooid, tcur, objs.cell_record('foreign'), '', other)),
                            ('tpc_vote', lambda: st.tpc_vote(other)),
                            ('tpc_finish', lambda: st.tpc_finish(other)),
-                           ('tpc_abort', lambda: st.tpc_abort(other))):
+                           ('tpc_abort', lambda: st.tpc_abort(other)),
+                           ('tpc_abort', lambda: st.tpc_abort(transaction=other)),       # (the parameter's documented name)
+                           ('tpc_vote', lambda: st.tpc_vote(transaction=other)),
+                           ('tpc_finish', lambda: st.tpc_finish(transaction=other))):
             try:
                 call()
                 if name != 'tpc_abort':
@@ -798,6 +802,125 @@ def blocked_world_shard(sh, params):
     return sh.result()
 
 
+def copy_fault_case(sh, s, d, case):
+    """copyTransactionsFrom runs two-phase commits of its own on the destination: when the k-th raw write to the destination fails,
+    the call fails, the destination holds exactly the transactions copied completely before, no transaction is left open on it (the
+    caller has no transaction object to abort), and it goes on working"""
+    import errno
+    import ZODB.MappingStorage
+    from zv import recfs, clock, objs
+    from zv.observe import observe, first_diff
+    from ZODB.Connection import TransactionMetaData
+    from ZODB.utils import z64, p64
+    rnd = random.Random(s)
+    FSM = recfs.install()
+    LOG = recfs.LOG
+    LOG.reset()
+    LOG.enabled = False
+    clock.install(clock.FakeClock())
+    with_blobs = rnd.random() < 0.4
+    bdir = os.path.join(d, 'sblobs')
+    src = FSM.FileStorage(os.path.join(d, 'Src.fs'), blob_dir=bdir if with_blobs else None)
+    tid = {}
+    from ZODB.blob import Blob
+    import pickle
+    blob_rec = None
+    if with_blobs:
+        import ZODB
+        db0 = ZODB.DB(src)
+        with db0.transaction() as c0:
+            c0.root()['b'] = Blob(b'blob bytes')
+        blob_rec = True
+    for n in range(rnd.randrange(2, 6)):
+        t = TransactionMetaData(b'u', b'source txn %d' % n)
+        src.tpc_begin(t)
+        for o in rnd.sample(range(1, 6), rnd.randrange(1, 4)):
+            oid = p64(0x100 + o)
+            src.store(oid, tid.get(oid, z64), objs.cell_record('v%d-%d' % (n, o) * rnd.choice([1, 40, 900])), '', t)
+            tid[oid] = None
+        src.tpc_vote(t)
+        tt = src.tpc_finish(t)
+        for oid in [o_ for o_, v in tid.items() if v is None]:
+            tid[oid] = tt
+    it = src.iterator()
+    src_tids = [tx.tid for tx in it]
+    it.close()
+    # reference: an undisturbed copy
+    ref = FSM.FileStorage(os.path.join(d, 'Ref.fs'), blob_dir=os.path.join(d, 'rblobs') if with_blobs else None)
+    ref.copyTransactionsFrom(src)
+    k = 0
+    while sh.time_left():
+        k += 1
+        dd = os.path.join(d, 'dst%d' % k)
+        os.makedirs(dd)
+        dst = FSM.FileStorage(os.path.join(dd, 'Dst.fs'), blob_dir=os.path.join(dd, 'blobs') if with_blobs else None)
+        cnt = [0]
+        fired = []
+
+        def fault(op):
+            if op[0] in ('write', 'fsync') and str(op[1]).startswith(dd) and not fired:
+                cnt[0] += 1
+                if cnt[0] == k:
+                    fired.append(op[0])
+                    return ('raise', errno.ENOSPC)
+            return None
+        LOG.ops = []
+        LOG.enabled = True
+        LOG.fault = fault
+        exc = None
+        try:
+            dst.copyTransactionsFrom(src)
+        except Exception as e:
+            exc = e
+        finally:
+            LOG.fault = None
+            LOG.enabled = False
+        if not fired:
+            dst.close()
+            break                      # past the last write of the copy
+        sh.count('copies_interrupted_by_a_failing_write_on_the_destination')
+        c2 = dict(case, k=k)
+        if exc is None:
+            sh.count('copies_completed_despite_the_failed_write')
+        if dst._file.closed:
+            # the write that failed belonged to the finish step: FileStorage closes itself then (outside the statement, which is
+            # about failures before the finish); go on with the file as it is on disk
+            sh.count('destination_closed_itself_after_a_failure_in_the_finish_step')
+            dst = FSM.FileStorage(os.path.join(dd, 'Dst.fs'), blob_dir=os.path.join(dd, 'blobs') if with_blobs else None)
+        if dst._commit_lock.locked() or dst.tpc_transaction() is not None:
+            sh.violation('c05:copy:destination-left-inside-a-transaction-after-a-failed-copy',
+                         {'k': k, 'op': fired[0], 'exc': repr(exc)[:100], 'commit_lock_held': dst._commit_lock.locked()}, c2)
+            dst.tpc_abort(dst.tpc_transaction())
+            dst.close()
+            return 'copy'
+        it = dst.iterator()
+        got = [tx.tid for tx in it]
+        it.close()
+        if got != src_tids[:len(got)]:
+            sh.violation('c05:copy:destination-holds-other-transactions-than-a-prefix-of-the-source', {'k': k}, c2)
+        # goes on working: the rest of the source can be committed by hand and the result equals the undisturbed copy
+        for tx in src.iterator(src_tids[len(got)] if len(got) < len(src_tids) else None) if len(got) < len(src_tids) else ():
+            dst.tpc_begin(tx, tx.tid, tx.status)
+            for r in tx:
+                if with_blobs and r.data and ZODB.blob.is_blob_record(r.data):
+                    import shutil as _sh
+                    tmpn = os.path.join(dd, 'tmpblob')
+                    _sh.copy(src.loadBlob(r.oid, r.tid), tmpn)
+                    dst.restoreBlob(r.oid, r.tid, r.data, tmpn, r.data_txn, tx)
+                else:
+                    dst.restore(r.oid, r.tid, r.data, '', r.data_txn, tx)
+            dst.tpc_vote(tx)
+            dst.tpc_finish(tx)
+        sh.count('followup_commits')
+        df = first_diff(observe(dst, full=False), observe(ref, full=False))
+        if df:
+            sh.violation('c05:copy:destination-differs-from-an-undisturbed-copy-after-resuming', {'k': k, 'diff': df}, c2)
+        dst.close()
+    ref.close()
+    src.close()
+    return 'copy'
+
+
 def run_shard(params):
     logging.disable(logging.CRITICAL)
     sh = Shard(params)
@@ -806,6 +929,8 @@ def run_shard(params):
     for j in range(3):
         cdb = {'seed': params['seed'] * 977 + params['shard'] * 13 + j, 'db': True}
         guarded(sh, 'c05', cdb, lambda: run_victim_db(sh, cdb['seed'], sh.fresh_dir('dbv'), cdb))
+    ccopy = {'seed': params['seed'] * 31 + params['shard'], 'copy': True}
+    guarded(sh, 'c05', ccopy, lambda: copy_fault_case(sh, ccopy['seed'], sh.fresh_dir('cp'), ccopy))
     guarded(sh, 'c05', {'seed': params['seed'], 'blobwrap': True}, lambda: run_victim_blobwrap(sh, params['seed'], sh.fresh_dir('bw'), {'seed': params['seed'], 'blobwrap': True}))
     for i in case_indices(params):
         if not sh.time_left():
@@ -831,6 +956,9 @@ def replay(case, scratch):
         out = mvccload.run_schedule(case['seed'], case['kind'], case['strategy'], scratch, stick=0.9, pct_depth=2)
         return [{'mechanism': 'c05:world:%s:%s' % (case['kind'], f[0] if f[0] != 'thread-exception' else 'thread-raises-%s' % f[2]),
                  'detail': {'detail': f[1:]}, 'case': case} for f in out['sched']]
+    if case.get('copy'):
+        guarded(sh, 'c05', case, lambda: copy_fault_case(sh, case['seed'], sh.fresh_dir('cp'), case))
+        return sh.violations
     if case.get('db'):
         guarded(sh, 'c05', case, lambda: run_victim_db(sh, case['seed'], sh.fresh_dir('dbv'), case))
         return sh.violations
